@@ -89,26 +89,44 @@ func (v *Vue) evalVFor(ctx VueContext, node *html.Node, nodes []*html.Node, dept
 
 		result = append(result, loopNodes...)
 
-		// If v-for produced no results, check for v-else on the next sibling
-		if len(loopNodes) == 0 {
-			for j := 1; j < len(nodes); j++ {
-				nextNode := nodes[j]
-				// Skip text nodes (whitespace)
-				if nextNode.Type != html.ElementNode {
-					continue
-				}
-				// Found the next element - check if it's v-else
-				if helpers.HasAttr(nextNode, "v-else") {
-					// Evaluate the v-else node without cloning yet - let evaluateNodeAsElement handle it
-					vElseResult, err := v.evaluateNodeAsElement(ctx, nextNode, depth)
-					if err != nil {
-						return result, skipCount, err
-					}
-					result = append(result, vElseResult...)
-					skipCount = j
-				}
-				// Stop looking after the first element node (v-else or not)
+		// The v-else-if / v-else siblings that follow belong to the looped element: they are
+		// consumed here whatever the loop produced, and when it produced nothing the first
+		// of them whose condition holds (or the v-else) is rendered instead.
+		chosen := len(loopNodes) != 0
+		for j := 1; j < len(nodes); j++ {
+			nextNode := nodes[j]
+			// Skip text nodes (whitespace)
+			if nextNode.Type != html.ElementNode {
+				continue
+			}
+			vElseIf, isElseIf := "", helpers.HasAttr(nextNode, "v-else-if")
+			if isElseIf {
+				vElseIf = helpers.GetAttr(nextNode, "v-else-if")
+			}
+			if !isElseIf && !helpers.HasAttr(nextNode, "v-else") {
+				// Stop looking at the first element that is not part of the chain
 				break
+			}
+			skipCount = j
+			if chosen {
+				continue
+			}
+			take := !isElseIf
+			if isElseIf {
+				ok, err := v.evalConditionExpr(ctx, vElseIf)
+				if err != nil {
+					return result, skipCount, err
+				}
+				take = ok
+			}
+			if take {
+				// Evaluate the member without cloning yet - let evaluateNodeAsElement handle it
+				memberResult, err := v.evaluateNodeAsElement(ctx, nextNode, depth)
+				if err != nil {
+					return result, skipCount, err
+				}
+				result = append(result, memberResult...)
+				chosen = true
 			}
 		}
 	}
